@@ -1,4 +1,5 @@
 import PicoVerif.Model.Build
+import PicoVerif.Spec.EmptyCart
 /-! C13 — build takes each cart section from exactly the source the arguments name.
 The wiring argparse -> `do_build` and the cart readers/writers are tied by the correspondence (all 4^6 assignments in
 the thorough tier), not proved. -/
@@ -125,5 +126,52 @@ theorem bad_output_name_fails (args : Sec → SecArg) (files : Nat → FileInfo)
 /-- **C13.no_args_keeps_out**: with no section arguments an existing OUT is reproduced unchanged. -/
 theorem no_args_keeps_out (files : Nat → FileInfo) (e c : Cart) : doBuild true (fun _ => {}) files e (some c) = .ok c := by
   simp [doBuild, secs, List.foldlM, step, bind, Except.bind, pure, Except.pure]
+
+/-! ### the empty default, concretely -/
+
+/-- the empty cart of the specification as a `Cart` (no label) -/
+def specEmpty : Cart
+  | .lua => Spec.Empty.lua | .gfx => Spec.Empty.gfx | .gff => Spec.Empty.gff | .map => Spec.Empty.map
+  | .sfx => Spec.Empty.sfx | .music => Spec.Empty.music | .label => []
+
+/-- the regions of the empty default have the sizes of the cart's memory regions -/
+theorem empty_sizes : Spec.Empty.gfx.length = 0x2000 ∧ Spec.Empty.map.length = 0x1000 ∧ Spec.Empty.gff.length = 0x100 ∧
+    Spec.Empty.music.length = 0x100 ∧ Spec.Empty.sfx.length = 0x1100 := by
+  refine ⟨List.length_replicate .., List.length_replicate .., List.length_replicate .., by decide +kernel, by decide +kernel⟩
+
+theorem empty_sfx_records_table :
+    (List.range 64).all (fun i => (Spec.Empty.sfx.drop (68 * i)).take 68 == Spec.Empty.sfxPattern i) = true := by
+  decide +kernel
+
+/-- the empty sound-effect region, record by record: 64 zero note bytes, editor mode 0, speed 1 for sound effect 0 and 16 for
+the other 63, no loop -/
+theorem empty_sfx_records (i : Nat) (h : i < 64) :
+    (Spec.Empty.sfx.drop (68 * i)).take 68 = List.replicate 64 0 ++ [0, if i = 0 then 1 else 16, 0, 0] := by
+  have := List.all_eq_true.mp empty_sfx_records_table i (List.mem_range.mpr h)
+  simpa [Spec.Empty.sfxPattern] using this
+
+theorem empty_music_records_table :
+    (List.range 64).all (fun i => (Spec.Empty.music.drop (4 * i)).take 4 == [0x41, 0x42, 0x43, 0x44]) = true := by
+  decide +kernel
+
+/-- the empty music region: the four channels of every pattern are silent (bit 6 set) -/
+theorem empty_music_records (i : Nat) (h : i < 64) : (Spec.Empty.music.drop (4 * i)).take 4 = [0x41, 0x42, 0x43, 0x44] := by
+  have := List.all_eq_true.mp empty_music_records_table i (List.mem_range.mpr h)
+  simpa using this
+
+/-- **C13.new_out_gets_pico8_defaults**: a build into an OUT that did not exist gives every section the arguments do not name
+the content of a new PICO-8 cart, and `--empty-X` gives section X that content whatever OUT held. -/
+theorem new_out_gets_pico8_defaults (outExtOk : Bool) (args : Sec → SecArg) (files : Nat → FileInfo) (out : Option Cart) (r : Cart)
+    (h : doBuild outExtOk args files specEmpty out = .ok r) (s : Sec) (hs : s ≠ .label) (hf : (args s).file = none) :
+    ((args s).empty = true → r s = specEmpty s) ∧ ((args s).empty = false → out = none → r s = specEmpty s) := by
+  have := section_choice outExtOk args files specEmpty out r h s hs
+  rw [this]
+  unfold choice
+  rw [hf]
+  constructor
+  · intro he; simp [he]
+  · intro he ho; simp [he, ho]
+
+example : (specEmpty .sfx).getD 65 0 = 1 ∧ (specEmpty .sfx).getD 133 0 = 16 := by decide +kernel
 
 end Pico.C13
